@@ -148,15 +148,15 @@ type Tree struct {
 	Mem  *int    `json:"mem,omitempty"`
 }
 
-func tLeaf(i int) *Tree         { return &Tree{Leaf: &i} }
-func tOp(o Op, x *Tree) *Tree   { return &Tree{Op: &o, X: x} }
-func tPair(x, y *Tree) *Tree    { return &Tree{Pair: []*Tree{x, y}} }
-func tArr(ms ...*Tree) *Tree    { return &Tree{Arr: ms, Seq: true} }
-func tLet(c, body *Tree) *Tree  { return &Tree{Let: c, X: body} }
-func tVar() *Tree               { return &Tree{Var: true} }
-func tMem(i int) *Tree          { return &Tree{Mem: &i} }
-func (t *Tree) isPair() bool    { return len(t.Pair) == 2 }
-func (t *Tree) valid() bool     { return t.validIn(false) }
+func tLeaf(i int) *Tree        { return &Tree{Leaf: &i} }
+func tOp(o Op, x *Tree) *Tree  { return &Tree{Op: &o, X: x} }
+func tPair(x, y *Tree) *Tree   { return &Tree{Pair: []*Tree{x, y}} }
+func tArr(ms ...*Tree) *Tree   { return &Tree{Arr: ms, Seq: true} }
+func tLet(c, body *Tree) *Tree { return &Tree{Let: c, X: body} }
+func tVar() *Tree              { return &Tree{Var: true} }
+func tMem(i int) *Tree         { return &Tree{Mem: &i} }
+func (t *Tree) isPair() bool   { return len(t.Pair) == 2 }
+func (t *Tree) valid() bool    { return t.validIn(false) }
 func (t *Tree) validIn(bound bool) bool {
 	switch {
 	case t == nil:
